@@ -79,6 +79,24 @@ unsigned vp_cvwaits_[VP_MAXT];    /* condition-variable waits begun per thread *
 #ifndef VP_DYN_ALLOC_MAX
 #define VP_DYN_ALLOC_MAX 64   /* bytes handed out for an allocation whose size is symbolic (e.g. 8 pointers / 4 shared_ptrs) */
 #endif
+/* event counter (native builds): every load/store/atomic/fence/mem intrinsic/visible model call, private or not */
+#ifdef VP_NATIVE
+unsigned vp_ev_n[8];
+#define VP_EV(kind) (vp_ev_n[vp_cur]++)
+#else
+#define VP_EV(kind) ((void)0)
+#endif
+#ifdef VP_NATIVE
+extern int vp_native_pos(void);
+static unsigned vp_ctx_ev0; static int vp_ctx_pos0;
+#define VP_CTX_BEGIN(t) do { vp_ctx_ev0 = vp_ev_n[t]; vp_ctx_pos0 = vp_native_pos(); } while (0)
+#define VP_CTX_END(t, name, done, drawn) printf("CTX %d %s %u %d %d %d %d\n", t, name, vp_ev_n[t] - vp_ctx_ev0, vp_native_pos() - vp_ctx_pos0, vp_blk_kind[t], done, drawn)
+#define VP_CTX_SKIP(t, drawn) printf("SKIP %d %d\n", t, drawn)
+#else
+#define VP_CTX_BEGIN(t) ((void)0)
+#define VP_CTX_END(t, name, done, drawn) ((void)0)
+#define VP_CTX_SKIP(t, drawn) ((void)0)
+#endif
 #ifndef VP_STEP
 #define VP_STEP(k)
 #endif
